@@ -374,6 +374,8 @@ def owners(mod, node):
                     if nm == h.name:
                         callers.append(f2)
                         break
+        if not callers and _uncalled_anywhere(mod, h):
+            continue        # new API that nothing in the toolkit calls: it executes on nobody's behalf
         if not callers:
             out.add(qualname(h.body[0]) if h.body else h.name)
         for f2 in callers:
@@ -382,6 +384,136 @@ def owners(mod, node):
             else:
                 work.append(f2)
     return out
+
+
+def _uncalled_anywhere(mod, h):
+    """True when no call site of the toolkit can reach the method/function `h` (defined in module `mod`): calls are matched by
+    name; a call `<recv>.name(..)` counts unless the receiver is known to hold something else - an attribute that is only ever
+    assigned objects of other classes (`self.sock = socket.socket(..)`, `self.f = open(..)`), a local bound to such an
+    attribute / constructor, or a loop variable over a display of such attributes.  References to the method as a value
+    (`cb = obj.name`) count as calls."""
+    import ast as _ast
+    repo = getattr(mod, "repo", None)
+    mods = list(repo.tk_modules()) if repo is not None else [mod]
+    cls = getattr(h, "_parent", None)
+    cname = cls.name if isinstance(cls, _ast.ClassDef) else None
+    # classes of the helper's family (by name): the class, its bases and subclasses anywhere in the toolkit
+    fam = set()
+    if cname is not None:
+        fam.add(cname)
+        changed = True
+        classes = [(c.name, [canon_name(b) for b in c.bases]) for m in mods for c in _ast.walk(m.tree) if isinstance(c, _ast.ClassDef)]
+        while changed:
+            changed = False
+            for n_, bases in classes:
+                if n_ not in fam and any(b in fam for b in bases):
+                    fam.add(n_); changed = True
+                if n_ in fam:
+                    for b in bases:
+                        if b not in fam and any(b == x for x, _ in classes):
+                            fam.add(b); changed = True
+    # attribute name -> constructor names assigned to it
+    at = {}
+    for m in mods:
+        for n in _ast.walk(m.tree):
+            if isinstance(n, _ast.Assign) and isinstance(n.value, _ast.Call):
+                cn = canon_name(n.value.func)
+                for t in n.targets:
+                    if isinstance(t, _ast.Attribute):
+                        at.setdefault(t.attr, set()).add(cn)
+            elif isinstance(n, _ast.Assign) and not isinstance(n.value, _ast.Constant):
+                for t in n.targets:
+                    if isinstance(t, _ast.Attribute):
+                        at.setdefault(t.attr, set()).add("?")
+
+    # structural filter: what is done with the objects an attribute holds (`x.A.read(..)`, `x.A.seek(..)`) must be something
+    # the helper's class family offers, else the attribute cannot hold one of its objects
+    uses = {}
+    for m in mods:
+        for n in _ast.walk(m.tree):
+            if isinstance(n, _ast.Attribute) and isinstance(n.value, _ast.Attribute):
+                uses.setdefault(n.value.attr, set()).add(n.attr)
+    members = set()
+    for m in mods:
+        for c in _ast.walk(m.tree):
+            if isinstance(c, _ast.ClassDef) and c.name in fam:
+                for x in _ast.walk(c):
+                    if isinstance(x, _ast.FunctionDef):
+                        members.add(x.name)
+                    elif isinstance(x, _ast.Attribute) and isinstance(x.value, _ast.Name) and x.value.id in ("self", "cls"):
+                        members.add(x.attr)
+                    elif isinstance(x, _ast.Assign):
+                        members.update(t.id for t in x.targets if isinstance(t, _ast.Name))
+
+    def may_be(recv, fd, depth=0):
+        if cname is None:
+            return True
+        if isinstance(recv, _ast.Name) and recv.id in ("self", "cls"):
+            c_ = fd
+            while c_ is not None and not isinstance(c_, _ast.ClassDef):
+                c_ = getattr(c_, "_parent", None)
+            return c_ is None or c_.name in fam
+        if isinstance(recv, _ast.Attribute):
+            srcs = at.get(recv.attr)
+            if not (uses.get(recv.attr, set()) <= members):
+                return False
+            if not srcs or "?" in srcs:
+                return True
+            return any(x.split(".")[-1] in fam for x in srcs)
+        if isinstance(recv, _ast.Call):
+            return canon_name(recv.func).split(".")[-1] in fam or canon_name(recv.func).split(".")[-1][:1].islower()
+        if isinstance(recv, _ast.Name) and fd is not None and depth < 3:
+            defs = []
+            for n in _ast.walk(fd):
+                if isinstance(n, _ast.Assign) and any(isinstance(t, _ast.Name) and t.id == recv.id for t in n.targets):
+                    defs.append(n.value)
+                elif isinstance(n, (_ast.For, _ast.comprehension)) and isinstance(n.target, _ast.Name) and n.target.id == recv.id:
+                    it = n.iter
+                    if isinstance(it, _ast.Name):
+                        its = [a.value for a in _ast.walk(fd) if isinstance(a, _ast.Assign) and any(isinstance(t, _ast.Name) and t.id == it.id for t in a.targets)]
+                        it = its[0] if len(its) == 1 else it
+                    if isinstance(it, (_ast.List, _ast.Tuple)):
+                        defs.extend(it.elts)
+                        # elements appended later: `links.append(x)`
+                        for a in _ast.walk(fd):
+                            if isinstance(a, _ast.Call) and isinstance(a.func, _ast.Attribute) and a.func.attr == "append" and a.args \
+                                    and isinstance(n.iter, _ast.Name) and canon_name(a.func.value) == n.iter.id:
+                                defs.append(a.args[0])
+                    else:
+                        return True
+            if not defs:
+                return True     # a parameter / unknown
+            return any(may_be(d, fd, depth + 1) for d in defs)
+        return True
+    for m in mods:
+        for f2 in _ast.walk(m.tree):
+            if not isinstance(f2, _ast.FunctionDef) or f2 is h:
+                continue
+            called = {id(c.func) for c in _ast.walk(f2) if isinstance(c, _ast.Call)}
+            for x in _ast.walk(f2):
+                if isinstance(x, _ast.Attribute) and x.attr == h.name and isinstance(x.ctx, _ast.Load):
+                    if may_be(x.value, f2):
+                        return False
+                elif isinstance(x, _ast.Name) and x.id == h.name and isinstance(x.ctx, _ast.Load) and cname is None:
+                    return False
+        # module-level statements
+        for st in m.tree.body:
+            if isinstance(st, (_ast.FunctionDef, _ast.ClassDef)):
+                continue
+            for x in _ast.walk(st):
+                if isinstance(x, _ast.Attribute) and x.attr == h.name and may_be(x.value, None):
+                    return False
+                if isinstance(x, _ast.Name) and x.id == h.name and cname is None:
+                    return False
+    return True
+
+
+def canon_name(e):
+    import ast as _ast
+    try:
+        return _ast.unparse(e)
+    except Exception:
+        return "?"
 
 
 # ---------------------------------------------------------------- class invariants from constructor refusals
